@@ -75,6 +75,12 @@ def streams(sp, tf, first):
         for tail in A.words(sp["abs_sigma"], sp["abs_n"] - 2):
             w = "FFF" + f + tail
             yield ("abs", w), raw_stream(w, "+" if tf else "b", ("h" if tf else "t") * (len(w) - 1), tf)
+    elif fam == "frac":
+        # prices with six decimals and fractional volumes (0.5, 0.7, 0, ...): running sums that never return to exactly zero
+        fine = {"tick": 0.123457, "offset": 0.000013, "base": A._BASES[0], "rot": 0, "volscale": 0.1}
+        for tail in A.words(sp["abs_sigma"], sp["abs_n"]):
+            w = f + tail + "FFF"
+            yield ("frac", w), raw_stream(w, "+" if tf else "b", ("h" if tf else "t") * (len(w) - 1), tf, var=fine)
     elif fam == "rel":
         for n in range(1, sp["rel_n"]):
             for tail in A.words(sp["rel_sigma"], n):
@@ -206,7 +212,7 @@ def check_c10(rep, cfg, ind, case):
                 if a is None or m is None or b is None or not (a <= m + sl and m <= b + sl):
                     V("band-order", i, value=r)
                 elif kind == "donchian":
-                    if a > c.low or b < c.high:
+                    if a > c.low + sl or b < c.high - sl:
                         V("donchian-encloses", i, value=r, low=c.low, high=c.high)
                     if abs(m - (a + b) / 2) > sl:
                         V("donchian-mid", i, value=r)
@@ -242,7 +248,7 @@ def check_c10(rep, cfg, ind, case):
         elif kind == "OBV":
             if i > 0:
                 prev = cs[i - 1].indicators.get(name)
-                if prev is not None and (r - prev) not in (0, c.volume, -c.volume):
+                if prev is not None and min(abs((r - prev) - k) for k in (0, c.volume, -c.volume)) > sl:
                     V("obv-step", i, value=r, prev=prev, volume=c.volume)
         elif kind == "Counter":
             if not (isinstance(r, int) or float(r).is_integer()) or r < 0:
@@ -252,7 +258,7 @@ def check_c10(rep, cfg, ind, case):
             if r not in (prev + 1, 0) and not (rd(ind, i, kw["input_value"]) is None and r == prev):
                 V("counter-step", i, value=r, prev=prev)
         elif kind == "HL":
-            if r.get("low") is not None and (r["low"] > c.low or r["high"] < c.high):
+            if r.get("low") is not None and (r["low"] > c.low + sl or r["high"] < c.high - sl):
                 V("hl-encloses", i, value=r)
         elif kind == "HLA":
             if not (c.low - sl <= r <= c.high + sl):
@@ -264,14 +270,20 @@ def check_c10(rep, cfg, ind, case):
 
 def run_case(prop, rep, cfg, tfc, fam, word, raw, horizon):
     kind = cfg.get("cls", cfg.get("analysis"))
-    for mode in ("append1", "batch"):
+    for mode in ("append1", "batch", "batch+calculate_index"):
+        if mode == "batch+calculate_index" and (prop != "C10" or len(raw) < 3 or fam not in ("abs", "frac")):
+            continue
         case = {"cfg": cfg["label"], "tfc": tfc, "fam": fam, "word": word, "raw": raw, "mode": mode}
         try:
             with deadline(horizon):
-                if mode == "batch":
+                if mode.startswith("batch"):
                     ind = make(cfg, candles=fresh(raw), **host_kw(tfc))
                     ind.calculate()
                     rep.inc("transitions")
+                    if mode == "batch+calculate_index":  # the public recomputation entry point must store the same kind of value
+                        ind.calculate_index(len(ind.candles) - 1)
+                        ind.calculate_index(-2)
+                        rep.inc("transitions", 2)
                 else:
                     ind = make(cfg, **host_kw(tfc))
                     for c in fresh(raw):
@@ -330,6 +342,8 @@ def main(prop, tier):
                 items.append((prop, tier, cfg["label"], tfc, ("rel", f)))
             for f in sp["st_sigma"]:
                 items.append((prop, tier, cfg["label"], tfc, ("st", f)))
+            for f in sp["abs_sigma"]:
+                items.append((prop, tier, cfg["label"], tfc, ("frac", f)))
     rep = merge_all(pmap(explore, items, chunksize=4))
     rule = ("every word of three stream families (absolute shapes sigma^n incl. flat-start prefixes; relative close steps "
             "{+1,-1,0 with wicks, 0 flat zero-volume, +2,-2 bodies}^<=n incl. all monotone runs; stutter words with runs of 16+ identical "
